@@ -418,16 +418,12 @@ type arrayValueEnumerator struct {
 
 // MoveNext moves the enumerator to the next Value.
 func (e *arrayValueEnumerator) MoveNext() bool {
-	if e.i >= len(e.a.values)-1 {
-		return false
-	}
-	for {
-		e.i++
-		if e.i < len(e.a.values) && e.a.values[e.i] != nil {
-			break
+	for e.i++; e.i < len(e.a.values); e.i++ {
+		if e.a.values[e.i] != nil {
+			return true
 		}
 	}
-	return e.i < len(e.a.values)
+	return false
 }
 
 // Current returns the enumerator's current Value.
